@@ -809,3 +809,87 @@ Proof.
   pose proof (digits_length_bound _ Hm) as Hd.
   destruct (Nat.eqb_spec (Nat.max tp k) 0); lia.
 Qed.
+
+(* ---------------------------------------------------------------- str::trim is idempotent (any bytes) *)
+Lemma trim_start_props s :
+  (length (trim_start s) <= length s)%nat /\ trim_start (trim_start s) = trim_start s
+  /\ exists p, s = p ++ trim_start s.
+Proof.
+  induction s as [s IH] using (well_founded_induction (Wf_nat.well_founded_ltof _ (@length N))).
+  destruct s as [|a r]; [repeat split; try reflexivity; exists []; reflexivity|].
+  assert (IHr : forall x, (length x < length (a :: r))%nat ->
+                          (length (trim_start x) <= length x)%nat /\ trim_start (trim_start x) = trim_start x
+                          /\ exists p, x = p ++ trim_start x) by (intros x Hx; apply IH; exact Hx).
+  cbn [trim_start]. destruct (is_ascii_ws a) eqn:Ea.
+  - destruct (IHr r ltac:(cbn; lia)) as [H1 [H2 [p Hp]]]. repeat split; [cbn; lia|exact H2|].
+    exists (a :: p). cbn. f_equal. exact Hp.
+  - destruct r as [|b r2].
+    + repeat split; [lia|cbn [trim_start]; rewrite Ea; reflexivity|exists []; reflexivity].
+    + destruct (ws2 a b) eqn:E2.
+      * destruct (IHr r2 ltac:(cbn; lia)) as [H1 [H2 [p Hp]]]. repeat split; [cbn; lia|exact H2|].
+        exists (a :: b :: p). cbn. do 2 f_equal. exact Hp.
+      * destruct r2 as [|c r3].
+        -- repeat split; [lia|cbn [trim_start]; rewrite Ea, E2; reflexivity|exists []; reflexivity].
+        -- destruct (ws3 a b c) eqn:E3.
+           ++ destruct (IHr r3 ltac:(cbn; lia)) as [H1 [H2 [p Hp]]]. repeat split; [cbn; lia|exact H2|].
+              exists (a :: b :: c :: p). cbn. do 3 f_equal. exact Hp.
+           ++ repeat split; [lia|cbn [trim_start]; rewrite Ea, E2, E3; reflexivity|exists []; reflexivity].
+Qed.
+
+Lemma trim_start_rev_props s :
+  trim_start_rev (trim_start_rev s) = trim_start_rev s /\ exists p, s = p ++ trim_start_rev s.
+Proof.
+  induction s as [s IH] using (well_founded_induction (Wf_nat.well_founded_ltof _ (@length N))).
+  destruct s as [|a r]; [split; [reflexivity|exists []; reflexivity]|].
+  assert (IHr : forall x, (length x < length (a :: r))%nat ->
+                          trim_start_rev (trim_start_rev x) = trim_start_rev x
+                          /\ exists p, x = p ++ trim_start_rev x) by (intros x Hx; apply IH; exact Hx).
+  cbn [trim_start_rev]. destruct (is_ascii_ws a) eqn:Ea.
+  - destruct (IHr r ltac:(cbn; lia)) as [H2 [p Hp]]. split; [exact H2|].
+    exists (a :: p). cbn. f_equal. exact Hp.
+  - destruct r as [|b r2].
+    + split; [cbn [trim_start_rev]; rewrite Ea; reflexivity|exists []; reflexivity].
+    + destruct (ws2 b a) eqn:E2.
+      * destruct (IHr r2 ltac:(cbn; lia)) as [H2 [p Hp]]. split; [exact H2|].
+        exists (a :: b :: p). cbn. do 2 f_equal. exact Hp.
+      * destruct r2 as [|c r3].
+        -- split; [cbn [trim_start_rev]; rewrite Ea, E2; reflexivity|exists []; reflexivity].
+        -- destruct (ws3 c b a) eqn:E3.
+           ++ destruct (IHr r3 ltac:(cbn; lia)) as [H2 [p Hp]]. split; [exact H2|].
+              exists (a :: b :: c :: p). cbn. do 3 f_equal. exact Hp.
+           ++ split; [cbn [trim_start_rev]; rewrite Ea, E2, E3; reflexivity|exists []; reflexivity].
+Qed.
+
+(* a non-empty prefix of a text that does not start with white space does
+   not start with white space either *)
+Lemma trim_start_prefix t w : trim_start (t ++ w) = t ++ w -> t <> [] -> trim_start t = t.
+Proof.
+  intros Hu Hne. destruct t as [|a t1]; [contradiction|].
+  assert (Hlen : forall x, (length x < length ((a :: t1) ++ w))%nat -> trim_start x <> (a :: t1) ++ w).
+  { intros x Hx E. pose proof (proj1 (trim_start_props x)) as Hl. rewrite E in Hl. lia. }
+  cbn [app trim_start] in Hu. cbn [trim_start].
+  destruct (is_ascii_ws a) eqn:Ea.
+  - exfalso. apply (Hlen (t1 ++ w)); [cbn; lia|exact Hu].
+  - destruct t1 as [|b t2]; [reflexivity|]. cbn [app] in Hu.
+    destruct (ws2 a b) eqn:E2.
+    + exfalso. apply (Hlen (t2 ++ w)); [cbn; lia|exact Hu].
+    + destruct t2 as [|c t3]; [reflexivity|]. cbn [app] in Hu.
+      destruct (ws3 a b c) eqn:E3; [|reflexivity].
+      exfalso. apply (Hlen (t3 ++ w)); [cbn; lia|exact Hu].
+Qed.
+
+Theorem trim_idem s : trim (trim s) = trim s.
+Proof.
+  set (u := trim_start s). set (x := trim_start_rev (rev u)).
+  assert (E : trim s = rev x) by reflexivity. rewrite E.
+  assert (Hu : trim_start u = u) by apply trim_start_props.
+  destruct (trim_start_rev_props (rev u)) as [Hx [p Hp]]. fold x in Hx, Hp.
+  assert (Eu : u = rev x ++ rev p).
+  { rewrite <- (rev_involutive u), Hp, rev_app_distr. reflexivity. }
+  assert (Hs : rev x <> [] -> trim_start (rev x) = rev x).
+  { intros Hne. apply (trim_start_prefix (rev x) (rev p)); [rewrite <- Eu; exact Hu|exact Hne]. }
+  destruct (rev x) as [|h t] eqn:Er.
+  - reflexivity.
+  - rewrite <- Er in *. unfold trim, trim_end. rewrite Hs, rev_involutive, Hx; [reflexivity|].
+    rewrite Er. discriminate.
+Qed.
